@@ -122,6 +122,10 @@ def grain_content(spec, layer, g, nbytes):
     ct = spec.get("ctargets")
     if spec.get("compressed") and ct:
         return fit_content(k, nbytes, ct[g % len(ct)])
+    if spec.get("compressed") and cmix == 3:
+        return Lit(bytes([(g * 37 + layer) % 255 + 1]) * nbytes)  # one byte value: the shortest deflate streams there are
+    if spec.get("compressed") and cmix == 4:
+        return Lit(bytes(64) + Pat(k, nbytes).read(0, nbytes)[64:])  # leading zero bytes (visible in stored / level-0 streams)
     if spec.get("compressed") and cmix:
         plen = nbytes // 2 if cmix == 1 else max(0, nbytes // 16)
         plen = (plen // 512) * 512
